@@ -216,6 +216,54 @@ def exec_batch(cases):
         shutil.rmtree(d, ignore_errors=True)
 
 
+PY_EXEC = r"""
+import sys, json, struct, math
+from math import *
+env0 = dict((k, v) for k, v in vars(math).items() if not k.startswith('_'))
+env0.update({'math': math, 'abs': abs, 'len': len, 'max': max, 'min': min, 'True': True, 'False': False})
+for line in sys.stdin:
+    o = json.loads(line)
+    out = []
+    for vec in o['vecs']:
+        env = dict(env0)
+        for n, b in zip(o['names'], vec):
+            env[n] = struct.unpack('<d', struct.pack('<Q', b))[0]
+        try:
+            v = eval(o['t'], {'__builtins__': {}}, env)
+            out.append('%016x' % struct.unpack('<Q', struct.pack('<d', float(v)))[0])
+        except (ZeroDivisionError, OverflowError, ValueError) as e:
+            out.append('EXC')
+        except Exception as e:
+            out.append('ERR:' + type(e).__name__)
+    print(o['k'], ' '.join(out))
+"""
+
+# Python operators whose meaning differs from the interpreter's by construction (not part of the
+# property, which speaks of the C text): % (sign of the divisor), // (floor of the exact quotient),
+# isclose / 1e-10 (other tolerances), chained b <= a <= c (no fmin / fmax of the bounds)
+PY_DIVERGENT = {"real_mod", "real_idiv", "real_ife", "real_ifz", "real_ifb"}
+
+
+def python_exec_batch(items):
+    """items: [(k, case, python text)] -> {k: [hex bits | EXC | ERR:..]}"""
+    import json as js
+    lines = []
+    for k, c, t in items:
+        names = []
+        for s in c.syms:
+            if s["k"] == "V" and s["name"].decode("latin-1") not in names:
+                names.append(s["name"].decode("latin-1"))
+        lines.append(js.dumps({"k": k, "t": t, "names": names, "vecs": c.vectors}))
+    p = subprocess.run([sys.executable, "-c", PY_EXEC], input="\n".join(lines) + "\n", stdout=subprocess.PIPE,
+                       stderr=subprocess.PIPE, text=True, timeout=600)
+    out = {}
+    for l in p.stdout.splitlines():
+        w = l.split()
+        if w:
+            out[int(w[0])] = w[1:]
+    return out
+
+
 def close_enough(a_bits, b_bits):
     a, b = L.dbl_of(a_bits), L.dbl_of(b_bits)
     if a_bits == b_bits or a == b:
@@ -290,6 +338,10 @@ def run_(ck):
     model = vv.ocaml_model("Lang")
     lap("extract + ocaml")
     catalog = L.Catalog(infos)
+    try:
+        catalog.escapes = tpl.string_escapes(Lb["snap"])
+    except (tpl.OutsideSubset, OSError):
+        catalog.escapes = False
     missing = [i for i in L.TYPED if i not in catalog.infos]
     if missing:
         ck.notes.append("classes no longer present in the headers: %s" % missing)
@@ -417,7 +469,7 @@ def run_(ck):
     # oracle (b): the compilers
     # (cases aimed at the unescaped-quote finding would unbalance the whole batch file: they are judged by the
     # oracle parser and by CPython only)
-    typed = [(k, c) for k, c in enumerate(cases) if c.typed and c.wellformed and not c.known_key
+    typed = [(k, c) for k, c in enumerate(cases) if c.typed and c.wellformed and (not c.known_key or catalog.escapes)
              and impl[k] and impl[k][0]]
     with concurrent.futures.ThreadPoolExecutor(3) as ex:
         fc = ex.submit(compile_batch, [(k, L.c_function(c, k, impl[k][0]["c"].decode("latin-1"))) for k, c in typed],
@@ -463,6 +515,37 @@ def run_(ck):
                                             L.dbl_of(int(got[j], 16)))))
                         break
     ck.coverage["executed_c_evaluations"] = executed
+
+    # the Python text evaluated by CPython (math functions), for the programs on which Python's operators
+    # mean what the interpreter computes
+    py_cases = [(k, c, impl[k][0]["py"].decode("latin-1")) for k, c in enumerate(cases)
+                if c.vectors is not None and impl[k] and impl[k][0]
+                and not (set(c.idents()) & PY_DIVERGENT)
+                and not any(fl[2] == k and fl[0] == "py" for fl in failures)]
+    py_executed = py_raised = 0
+    if py_cases:
+        pout = python_exec_batch(py_cases)
+        for k, c, text in py_cases:
+            vals = impl[k][1]
+            got = pout.get(k, [])
+            for j, v in enumerate(vals):
+                if not v.startswith("d:") or j >= len(got):
+                    continue
+                if got[j] == "EXC":
+                    py_raised += 1        # Python raises where C yields inf / nan (e.g. math.exp overflow)
+                    continue
+                if got[j].startswith("ERR"):
+                    failures.append(("py", "cannot-be-evaluated", k, "eval of the Python text raises %s" % got[j][4:]))
+                    break
+                py_executed += 1
+                if not close_enough(int(v[2:], 16), int(got[j], 16)):
+                    failures.append(("py", "computes-another-value", k,
+                                     "on input %s the interpreter returns %r, the Python text %r"
+                                     % ([L.dbl_of(b) for b in c.vectors[j]], L.dbl_of(int(v[2:], 16)),
+                                        L.dbl_of(int(got[j], 16)))))
+                    break
+    ck.coverage["executed_python_evaluations"] = py_executed
+    ck.coverage["python_raised_where_c_is_inf_or_nan"] = py_raised
 
     lap("execution")
     # texts the extracted reader does not read as the program's expression: a violation if the
